@@ -255,6 +255,9 @@ func (e *Exec) loadFrom(st *State, loc *Loc, useOld bool) Val {
 			v.T = append(v.T, app("select", a, loc.Ref))
 		}
 	}
+	if len(v.T) == 2 && isProtoOneof(loc.Typ) && !useOld {
+		st.assume(tImp(tNot(tEq(v.T[0], "0")), tNot(tEq(v.T[1], "0"))))
+	}
 	// protobuf well-formedness: the message inside a set oneof wrapper is non-nil
 	if strings.HasPrefix(loc.Owner, "tunnelpb.") && strings.Contains(loc.Owner, "_") && len(v.T) == 1 {
 		if _, isPtr := loc.Typ.Underlying().(*types.Pointer); isPtr && !useOld {
@@ -288,6 +291,7 @@ func (e *Exec) storeTo(st *State, loc *Loc, v Val) {
 		a := e.curArr(st, k, s)
 		st.wrote(k, loc.Ref)
 		if loc.Idx != "" {
+			st.counts["elemgen:"+strings.TrimPrefix(strings.SplitN(loc.Key, "#", 2)[0], "E:")]++
 			e.setArr(st, k, s, app("store", a, loc.Ref, app("store", app("select", a, loc.Ref), loc.Idx, v.T[i])))
 		} else {
 			e.setArr(st, k, s, app("store", a, loc.Ref, v.T[i]))
@@ -676,7 +680,18 @@ func computeOrdinals(fn *ssa.Function) map[ssa.Instruction]anchorID {
 				continue
 			}
 			if id.kind == "call" && id.target == "close" {
-				id = anchorID{kind: "close"}
+				var cc *ssa.CallCommon
+				switch y := in.(type) {
+				case *ssa.Call:
+					cc = &y.Call
+				case *ssa.Defer:
+					cc = &y.Call
+				}
+				if cc != nil {
+					if _, isB := cc.Value.(*ssa.Builtin); isB && !cc.IsInvoke() {
+						id = anchorID{kind: "close"}
+					}
+				}
 			}
 			items = append(items, item{in, id, in.Pos(), seq})
 		}
@@ -768,6 +783,9 @@ func (e *Exec) Run() {
 	for _, fv := range e.fn.FreeVars {
 		v := e.freshVal("fv:"+fv.Name(), fv.Type())
 		e.assumeWellFormed(st, v, fv.Type(), true)
+		if _, isPtr := fv.Type().Underlying().(*types.Pointer); isPtr {
+			st.assume(tNot(tEq(v.T[0], "0"))) // a captured variable's cell always exists
+		}
 		// a free variable is a pointer to the captured variable's cell
 		fr.freeV[fv.Name()] = v
 		fr.env[fv] = v
@@ -778,6 +796,18 @@ func (e *Exec) Run() {
 }
 
 type reachErr string
+
+// isProtoOneof: the generated oneof interface types of tunnelpb (a set member is a non-nil wrapper).
+func isProtoOneof(t types.Type) bool {
+	n, ok := t.(*types.Named)
+	if !ok {
+		if a, ok := t.(*types.Alias); ok {
+			return isProtoOneof(types.Unalias(a))
+		}
+		return false
+	}
+	return n.Obj().Pkg() != nil && n.Obj().Pkg().Name() == "tunnelpb" && types.IsInterface(n)
+}
 
 // assumeTypeWF: immutable well-formedness facts of an object ("wf" invariants
 // of its type contract): established by constructors, never invalidated
@@ -827,6 +857,9 @@ func (e *Exec) assumeWellFormed(st *State, v Val, t types.Type, isParam bool) {
 			st.assume(app(">=", v.T[0], "0"))
 			st.assume(tImp(tEq(v.T[0], "0"), tEq(v.T[1], "0")))
 			st.assume(app("<", v.T[1], "BASE"))
+			if isProtoOneof(t) {
+				st.assume(tImp(tNot(tEq(v.T[0], "0")), tNot(tEq(v.T[1], "0"))))
+			}
 		}
 	case *types.Basic:
 		if isStringType(t) {
